@@ -318,31 +318,32 @@ theorem bdry_par_accepts (τ : Tol K) (hτ : τ.ok) (v : String) (o c1 c2 : PFun
   simp only [bdryContains, containsAux, hp, ho, h1, h2, if_true]
   rw [solveLgs_fst _ _ _ _ _ _ s t hdet (by ring) (by ring)]
   simp only [Option.some.injEq, Bool.or_eq_true, Bool.and_eq_true, le_iff]
+  have hb := hτ.2.2
   rcases hedge with ⟨hs, ht0, ht1⟩ | ⟨ht, hs0, hs1⟩
   · left
-    refine ⟨?_, ht0, ht1⟩
+    refine ⟨?_, by linarith, by linarith⟩
     rcases hs with rfl | rfl
     · right; exact isclose_self_bary τ hτ 0
     · left; exact isclose_self_bary τ hτ 1
   · right
-    refine ⟨?_, hs0, hs1⟩
+    refine ⟨?_, by linarith, by linarith⟩
     rcases ht with rfl | rfl
     · right; exact isclose_self_bary τ hτ 0
     · left; exact isclose_self_bary τ hτ 1
 
-/-- parallelogram boundary: an accepted point has a barycentric coordinate within the tolerance of 0 or 1 -/
+/-- parallelogram boundary: an accepted point has one barycentric coordinate within the tolerance of 0 or 1
+    and the other one within the tolerance of the range [0, 1] (the edge with its corners) -/
 theorem bdry_par_rejects (τ : Tol K) (v : String) (o c1 c2 : PFun K) (pts ρ : Env K)
     (x y ox oy ax ay bx cy : K) (hp : pts.get v = some [x, y])
     (ho : o.f (pts ++ ρ) = [ox, oy]) (h1 : c1.f (pts ++ ρ) = [ax, ay]) (h2 : c2.f (pts ++ ρ) = [bx, cy])
     (h : bdryContains τ (.par v o c1 c2) pts ρ = some true) :
     let b := solveLgs (x - ox) (y - oy) (ax - ox) (ay - oy) (bx - ox) (cy - oy)
-    (|b.1 - 1| ≤ τ.batol + τ.rtol ∨ |b.1| ≤ τ.batol) ∨ (|b.2 - 1| ≤ τ.batol + τ.rtol ∨ |b.2| ≤ τ.batol) := by
+    ((|b.1 - 1| ≤ τ.batol + τ.rtol ∨ |b.1| ≤ τ.batol) ∧ -τ.batol ≤ b.2 ∧ b.2 ≤ 1 + τ.batol) ∨
+    ((|b.2 - 1| ≤ τ.batol + τ.rtol ∨ |b.2| ≤ τ.batol) ∧ -τ.batol ≤ b.1 ∧ b.1 ≤ 1 + τ.batol) := by
   simp only [bdryContains, containsAux, hp, ho, h1, h2, if_true, Option.some.injEq, Bool.or_eq_true,
-    Bool.and_eq_true, isclose_iff, Tol.bary] at h
+    Bool.and_eq_true, isclose_iff, Tol.bary, le_iff] at h
   simp only [abs_one, mul_one, abs_zero, mul_zero, add_zero, sub_zero] at h
-  rcases h with ⟨h, _⟩ | ⟨h, _⟩
-  · exact Or.inl h
-  · exact Or.inr h
+  exact h
 
 /-- triangle boundary: the three closed edges are accepted -/
 theorem bdry_tri_accepts (τ : Tol K) (hτ : τ.ok) (v : String) (o c1 c2 : PFun K) (pts ρ : Env K)
@@ -356,8 +357,8 @@ theorem bdry_tri_accepts (τ : Tol K) (hτ : τ.ok) (v : String) (o c1 c2 : PFun
   rw [solveLgs_fst _ _ _ _ _ _ s t hdet (by ring) (by ring)]
   simp only [Option.some.injEq, Bool.or_eq_true, Bool.and_eq_true, le_iff]
   rcases hedge with ⟨rfl, ht0, ht1⟩ | ⟨rfl, hs0, hs1⟩ | ⟨hst, hs0, ht0⟩
-  · left; left; exact ⟨isclose_self_bary τ hτ 0, ht0, ht1⟩
-  · left; right; exact ⟨isclose_self_bary τ hτ 0, hs0, hs1⟩
+  · left; left; exact ⟨isclose_self_bary τ hτ 0, by linarith [hτ.2.2], by linarith [hτ.2.2]⟩
+  · left; right; exact ⟨isclose_self_bary τ hτ 0, by linarith [hτ.2.2], by linarith [hτ.2.2]⟩
   · right
     refine ⟨by rw [hst]; exact isclose_self_bary τ hτ 1, ?_, ?_⟩ <;> linarith [hτ.2.2]
 
@@ -369,7 +370,7 @@ theorem bdry_tri_rejects (τ : Tol K) (v : String) (o c1 c2 : PFun K) (pts ρ : 
     (ho : o.f (pts ++ ρ) = [ox, oy]) (h1 : c1.f (pts ++ ρ) = [ax, ay]) (h2 : c2.f (pts ++ ρ) = [bx, cy])
     (h : bdryContains τ (.tri v o c1 c2) pts ρ = some true) :
     let b := solveLgs (x - ox) (y - oy) (ax - ox) (ay - oy) (bx - ox) (cy - oy)
-    (|b.1| ≤ τ.batol ∧ 0 ≤ b.2 ∧ b.2 ≤ 1) ∨ (|b.2| ≤ τ.batol ∧ 0 ≤ b.1 ∧ b.1 ≤ 1) ∨
+    (|b.1| ≤ τ.batol ∧ -τ.batol ≤ b.2 ∧ b.2 ≤ 1 + τ.batol) ∨ (|b.2| ≤ τ.batol ∧ -τ.batol ≤ b.1 ∧ b.1 ≤ 1 + τ.batol) ∨
       (|b.1 + b.2 - 1| ≤ τ.batol + τ.rtol ∧ -τ.batol ≤ b.1 ∧ -τ.batol ≤ b.2) := by
   simp only [bdryContains, containsAux, hp, ho, h1, h2, if_true, Option.some.injEq, Bool.or_eq_true,
     Bool.and_eq_true, isclose_iff, Tol.bary, le_iff] at h
